@@ -63,7 +63,22 @@ func situations() []situation {
 		{"snippet-with-error", "// @scope: recv\nset req.http.A = std.itoa(\"x\");\n", nil},
 		{"snippet-syntax-error", "// @scope: recv\nset req.http.A = ;\n", nil},
 		{"empty-file", "", nil},
+		// literals at and beyond the range of their type, in the main file and in a module (-json prints the main file's tree)
+		{"literal-float-max", litProg("FLOAT", "1e308"), nil},
+		{"literal-float-overflow", litProg("FLOAT", "1e999"), nil},
+		{"literal-float-negative-overflow", litProg("FLOAT", "-1.5e400"), nil},
+		{"literal-float-hex-overflow", litProg("FLOAT", "0x1p2000"), nil},
+		{"literal-float-underflow", litProg("FLOAT", "1e-400"), nil},
+		{"literal-integer-max", litProg("INTEGER", "9223372036854775807"), nil},
+		{"literal-integer-overflow", litProg("INTEGER", "9223372036854775808"), nil},
+		{"literal-integer-hex-overflow", litProg("INTEGER", "0x10000000000000000"), nil},
+		{"literal-rtime-overflow", litProg("RTIME", "99999999999999999999d"), nil},
+		{"literal-float-overflow-in-include", "include \"mod\";\n" + okSub, map[string]string{"mod.vcl": "sub from_mod {\n  declare local var.v FLOAT;\n  set var.v = 1e999;\n  set req.http.V = var.v;\n}\n"}},
 	}
+}
+
+func litProg(typ, lit string) string {
+	return "sub vcl_recv {\n  #FASTLY recv\n  declare local var.v " + typ + ";\n  set var.v = " + lit + ";\n  set req.http.V = var.v;\n}\n"
 }
 
 var levels = []string{"ERROR", "WARNING", "INFO", "IGNORE"}
